@@ -814,12 +814,20 @@ func c15corpus() []c15scn {
 }
 
 func runC15(c *Ctx) error {
-	c.Rule = "scenario = generated ECAL program (one statement per line; functions incl. recursion and calls as arguments, loops, if/else, try/except/finally with raise, two statements on a line, a call spanning two lines; or 2-4 sinks on 4 workers with cascading events) x breakpoint edits before the run (set / set+disable / set+remove / set+disable+set over random lines) x break-on-start / break-on-error x a seeded stream of continue commands {resume, stepin, stepover, stepout} and further breakpoint edits given at every suspension, each either inside the window between 'marked suspended' and cond.Wait or a little later; corpus first (lost wake-up witness at the three wait sites and for StopThreads, hand-written step/loop/error programs); non-trivial = the debugged run suspended at least once; distinct by (program, edits, seed)"
+	c.Rule = "scenario = generated ECAL program (one statement per line; functions incl. recursion and calls as arguments, loops, if/else, try/except/finally with raise, two statements on a line, a call spanning two lines; or 2-4 sinks on 4 workers with cascading events) x breakpoint edits before the run (set / set+disable / set+remove / set+disable+set over random lines) x break-on-start / break-on-error x a seeded stream of continue commands {resume, stepin, stepover, stepout} and further breakpoint edits given at every suspension, each either inside the window between 'marked suspended' and cond.Wait or a little later; corpus first (lost wake-up witness at the three wait sites and for StopThreads, hand-written step/loop/error programs); busy scenarios: one thread stepping (stepout / stepover / stepin / resume cycles) through a three-deep call while 2-6 other threads of the same debugger loop over function calls - every continue must return, release its thread, all threads must finish with the undebugged results; non-trivial = the debugged run suspended at least once; distinct by (program, edits, seed)"
 	c.BeginCases("From Coq Require Import NArith List.\nImport ListNotations.\nFrom Ecal Require Import Common.Sched Model.Debugger Run.RunC15.", "case", 60)
 	if c.Replay != "" {
 		var d c15scn
 		if err := c.LoadReplay(&d); err != nil {
 			return err
+		}
+		if d.Kind == "busy" {
+			var b c15busyScn
+			if err := c.LoadReplay(&b); err != nil {
+				return err
+			}
+			c15busy(c, b)
+			return nil
 		}
 		if !c15one(c, d) {
 			return fmt.Errorf("hook points debug.suspend / debug.resumed are not present in the repository (fixes/hooks-C15.patch)")
@@ -839,6 +847,8 @@ func runC15(c *Ctx) error {
 		}
 	}
 	c.Extra["corpus"] = len(c15corpus())
+	// continue commands for one thread while other threads of the same debugger run
+	c15busyScenarios(c)
 	n := c.Pick(260, 5000)
 	for i := 0; i < n; i++ {
 		if c.vcount["lost-wakeup"] >= 6 || c.Enough() {
